@@ -59,7 +59,8 @@ def texts(rng, tier):
     out = ["select a->>'b'", 'select from t', 'select a b c', 'select 1 +', 'select * from t where', 'select (1',
            '  select 1 )', 'select a\n  from t\n where\n x y z', 'select /* c */ a b c', 'select a -- c\n b c',
            "select 'a' 'b'", "select 'a' 'it''s'", 'select 1 @v', 'select a b "q\\"r"', 'create model', 'select a from t join', 'select * from t limit x', 'x', ')', 'select 1 2',
-           'select a\n\n\n, from t', 'select @v 5', 'select a from t where a = ', "select 'x\ny' z w",
+           'select a\n\n\n, from t', 'select a,\n\n  -- c\n  b\nfrom from t\nwhere x = 1\norder by a', 'select a\n\nfrom t\nwhere where\nb = 1\nlimit 2',
+           'select @v 5', 'select a from t where a = ', "select 'x\ny' z w",
            # a keyword left out after the first word of a command: the suggestions are the keywords that may follow
            'create table if x', 'create table if x (a int)', 'drop e', 'drop table if t', 'create e from h', 'create m predict x', 'create t (a int)',
            'show x', 'alter x', 'insert x', 'start x', 'create or t', 'create knowledge x', 'select * from t group x', 'select * from t order x',
@@ -96,7 +97,9 @@ def texts(rng, tier):
         sep = []
         for _ in lex:
             r = rng.random()
-            sep.append(' ' if r < 0.75 else ('\n' if r < 0.85 else ('\n   ' if r < 0.92 else ('  ' if r < 0.97 else ' /* c */ '))))
+            # (also empty and comment-only lines: line numbers with gaps)
+            sep.append(' ' if r < 0.70 else ('\n' if r < 0.80 else ('\n   ' if r < 0.86 else ('  ' if r < 0.89 else (' /* c */ ' if r < 0.92 else
+                       rng.choice(['\n\n', '\n\n  ', '\n-- c\n', '\n  -- c\n\n', ' -- c\n', '\n/* c */\n', '\n\n\n']))))))
         txt = (rng.choice(['', '', ' ', '\n']) + ''.join(a + b for a, b in zip(lex, sep))).rstrip()
         out.append(txt)
     return list(dict.fromkeys(out))
@@ -265,7 +268,7 @@ def run(tier, seed, replay=None):
               '      end),',
               '     forallb (suggestion_ok tbl tys i) sug)',
               '  end.',
-              'Definition cases := [']
+              'Definition cases : list (list positive * list str * str * nat * nat * list positive) := [']
         body = []
         for txt, stripped, toks, shown, k, n, eof, sugg, msg in jrows[k0:k0 + shard]:
             tys = '; '.join(f'{num[t.type]}%positive' for t in toks)
